@@ -45,6 +45,8 @@ def _variants_for(prop: str) -> list[dict]:
 
 
 def _overlay(v: dict) -> dict[str, str] | None:
+    if "auto" in v:
+        return _overlay_auto(v)
     if "patch" in v:
         from .dev import overlay_from_patch
         try:
@@ -95,8 +97,10 @@ def _run_one(v: dict) -> dict[str, Any]:
     return {"name": v["name"], "kind": v["kind"], "verdict": "ok" if ok else "MISBEHAVES", "rc": rc, "rules": rules[:4]}
 
 
-def run_for(prop: str, jobs: int = 16, sample: int | None = None, seed: int = 0) -> dict[str, Any] | None:
+def run_for(prop: str, jobs: int = 16, sample: int | None = None, seed: int = 0, auto: bool = False) -> dict[str, Any] | None:
     vs = _variants_for(prop)
+    if auto:
+        vs = vs + auto_rename_variants(prop)
     if not vs:
         return None
     if sample == 0:
@@ -133,10 +137,11 @@ def merge_into_evidence(prop: str, st: dict[str, Any]) -> None:
 
 def main() -> int:
     import sys
-    props = sys.argv[1:] or [f"C{i:02d}" for i in range(1, 21)]
+    auto = "--auto" in sys.argv
+    props = [a for a in sys.argv[1:] if not a.startswith("--")] or [f"C{i:02d}" for i in range(1, 21)]
     bad = 0
     for p in props:
-        st = run_for(p)
+        st = run_for(p, auto=auto)
         if st is None:
             continue
         print(f"{p}: {st['variants']} variants, firing ok {st['firing_ok']}, silent ok {st['silent_ok']}, skipped {st['skipped']}, misbehaving {len(st['misbehaving'])}")
@@ -147,6 +152,67 @@ def main() -> int:
             if r["verdict"].startswith("skipped"):
                 print(f"    skipped {r['name']}")
     return 1 if bad else 0
+
+
+
+# ---------------------------------------------------------------------------------------------- systematic silent variants
+def auto_rename_variants(prop: str) -> list[dict]:
+    """One silent variant per local variable of every function the check analysed: rename it (AST-level)."""
+    import ast as _ast
+
+    f = VERIF / "evidence" / f"{prop}.json"
+    if not f.exists():
+        return []
+    funcs = json.loads(f.read_text())["coverage"].get("functions_analysed", [])
+    from .model import load_program
+    prog = load_program()
+    out = []
+    for q in funcs:
+        if q not in prog.funcs:
+            continue
+        fi = prog.funcs[q]
+        params = {a.arg for a in [*fi.node.args.posonlyargs, *fi.node.args.args, *fi.node.args.kwonlyargs]}
+        if fi.node.args.vararg:
+            params.add(fi.node.args.vararg.arg)
+        if fi.node.args.kwarg:
+            params.add(fi.node.args.kwarg.arg)
+        locals_ = []
+        for n in _ast.walk(fi.node):
+            if isinstance(n, _ast.Name) and isinstance(n.ctx, _ast.Store) and n.id not in params and n.id not in locals_ and not n.id.startswith("_"):
+                locals_.append(n.id)
+        for name in locals_:
+            out.append({"prop": prop, "kind": "silent", "name": f"auto: local `{name}` of {q.split(':')[1]} renamed", "auto": (q, name), "source": "auto-rename"})
+    return out
+
+
+def _overlay_auto(v: dict) -> dict[str, str] | None:
+    import ast as _ast
+
+    from .model import load_program
+    q, name = v["auto"]
+    prog = load_program()
+    if q not in prog.funcs:
+        return None
+    fi = prog.funcs[q]
+    new = f"{name}_rn"
+    tree = _ast.parse(fi.module.source)
+    target = None
+    for n in _ast.walk(tree):
+        if isinstance(n, (_ast.FunctionDef, _ast.AsyncFunctionDef)) and n.name == fi.node.name and n.lineno == fi.node.lineno:
+            target = n
+    if target is None:
+        return None
+    # do not rename if an inner function declares the name nonlocal / the new name already exists
+    if any(isinstance(x, _ast.Name) and x.id == new for x in _ast.walk(target)):
+        return None
+    for n in _ast.walk(target):
+        if isinstance(n, _ast.Name) and n.id == name:
+            n.id = new
+        elif isinstance(n, _ast.arg) and n.arg == name and n is not target:
+            pass
+        elif isinstance(n, _ast.keyword) and False:
+            pass
+    return {fi.module.relpath: _ast.unparse(tree)}
 
 
 if __name__ == "__main__":
